@@ -52,6 +52,16 @@ package rib
 //@ assert at "Error: err.Error()," [failed-no-trace] keptAll(niR.r.Afts)
 //@ loop 1 at "range originalNHG.NextHop" invariant holdersWF(r) && registered(r, niR) && opRemoved(niR, op) && removed && originalNHG != nil
 //@ loop 1 invariant dom(r.pendingEntries) == old(dom(r.pendingEntries)) && pendingWF(r)
+// C03: a removed entry releases its reference exactly once, at the group it pointed to, in the instance it named
+// (or its own); a removed group releases each of its member next-hops once; nothing else is released.
+//@ at "r.refdRIB(niR, originalv4.GetNextHopGroupNetworkInstance())" ghost cntBefore = nhgCount(refTarget(r, niR, originalv4.GetNextHopGroupNetworkInstance()), originalv4.GetNextHopGroup())
+//@ assert at "aft = constants.IPv4" [v4-reference-released] refOK(r, originalv4.GetNextHopGroupNetworkInstance()) && nhgCount(refTarget(r, niR, originalv4.GetNextHopGroupNetworkInstance()), originalv4.GetNextHopGroup()) == dec64(cntBefore)
+//@ at "r.refdRIB(niR, originalv6.GetNextHopGroupNetworkInstance())" ghost cntBefore6 = nhgCount(refTarget(r, niR, originalv6.GetNextHopGroupNetworkInstance()), originalv6.GetNextHopGroup())
+//@ assert at "aft = constants.IPv6" [v6-reference-released] refOK(r, originalv6.GetNextHopGroupNetworkInstance()) && nhgCount(refTarget(r, niR, originalv6.GetNextHopGroupNetworkInstance()), originalv6.GetNextHopGroup()) == dec64(cntBefore6)
+//@ at "r.refdRIB(niR, originalMPLS.GetNextHopGroupNetworkInstance())" ghost cntBeforeM = nhgCount(refTarget(r, niR, originalMPLS.GetNextHopGroupNetworkInstance()), originalMPLS.GetNextHopGroup())
+//@ assert at "aft = constants.MPLS" [mpls-reference-released] refOK(r, originalMPLS.GetNextHopGroupNetworkInstance()) && nhgCount(refTarget(r, niR, originalMPLS.GetNextHopGroupNetworkInstance()), originalMPLS.GetNextHopGroup()) == dec64(cntBeforeM)
+//@ loop 1 invariant[members-released] niR == r.niRIB[ni] && (forall k in visited :: k in dom(originalNHG.NextHop)) && (forall i: uint64 :: nhCount(niR, i) == ite(i in visited, dec64(old(nhCount(r.niRIB[ni], i))), old(nhCount(r.niRIB[ni], i))))
+//@ assert at "deleted from RIB successfully" [group-members-released] originalNHG != nil ==> (forall i: uint64 :: nhCount(niR, i) == ite(i in dom(originalNHG.NextHop), dec64(old(nhCount(r.niRIB[ni], i))), old(nhCount(r.niRIB[ni], i))))
 //@ assigns ribState, spawned, hookCount
 //@ props C01 C03 C06 C12:safety C12:ensures#own-id-fail C12:ensures#held-untouched
 
@@ -106,6 +116,8 @@ package rib
 //@ loop 7 invariant dom(niR.r.Afts.Ipv4Entry) == emptyset(string) && dom(niR.r.Afts.Ipv6Entry) == emptyset(string) && dom(niR.r.Afts.LabelEntry) == emptyset(aft.Afts_LabelEntry_Label_Union)
 //@ loop 8 at "range niR.r.Afts.NextHop" invariant len(errs) == 0 && holdersWF(r) && allTablesNonNil(r) && registered(r, niR) && (forall k in visited :: !(k in dom(niR.r.Afts.NextHop)))
 //@ loop 8 invariant dom(niR.r.Afts.Ipv4Entry) == emptyset(string) && dom(niR.r.Afts.Ipv6Entry) == emptyset(string) && dom(niR.r.Afts.LabelEntry) == emptyset(aft.Afts_LabelEntry_Label_Union) && dom(niR.r.Afts.NextHopGroup) == emptyset(uint64)
+// C03/C08: every flushed entry releases its reference where it points: in the instance it names, or its own.
+//@ assert at "referencedRIB.decNHGRefCount(entry.GetNextHopGroup())" [release-where-referenced] referencedRIB == refTarget(r, niR, rangeval.GetNextHopGroupNetworkInstance()) && refOK(r, rangeval.GetNextHopGroupNetworkInstance())
 //@ assigns ribState, hookCount
 //@ props C08 C03 C12:safety
 
